@@ -106,7 +106,9 @@ KIND_OF_EXT = {
 PURE_EXT_PREFIXES = ('copy.', 'math.', 'random.', 'functools.', 'decimal.', 'regex.', 'operator.', 'itertools.',
                      'collections.', 'typing.', 'abc.', 'dataclasses.', 'contextlib.', 'str.', 'list.', 'dict.',
                      'tuple.', 'int.', 'float.', 'bool.', 'numbers.', 'fractions.', 'statistics.', 'string.',
-                     'heapq.', 'bisect.', 'unicodedata.', 'textwrap.', 'enum.', 're.')
+                     'heapq.', 'bisect.', 'unicodedata.', 'textwrap.', 'enum.', 're.',
+                     # reading a clock gives a program nothing to act on (time.sleep stays forbidden)
+                     'time.monotonic', 'time.perf_counter', 'time.time', 'time.process_time')
 FORBIDDEN_EXT_PREFIXES = ('os.', 'io.', 'sys.', 'subprocess.', 'socket.', 'importlib.', 'pickle.', 'ctypes.', 'shutil.',
                           'tempfile.', 'pathlib.', 'urllib.', 'http.', 'marshal.', 'shelve.', 'inspect.', 'gc.',
                           'logging.', 'threading.', 'multiprocessing.', 'signal.', 'runpy.', 'code.', 'codeop.',
@@ -116,7 +118,7 @@ FORBIDDEN_EXT_PREFIXES = ('os.', 'io.', 'sys.', 'subprocess.', 'socket.', 'impor
                           'csv.', 'configparser.', 'pkgutil.', 'zipimport.', 'site.', 'sysconfig.', 'faulthandler.',
                           'tracemalloc.', '_thread.', 'posix.', 'atexit.', 'time.sleep', 'json.load', 'json.dump',
                           'weakref.', 'traceback.', 'warnings.', 'codecs.open', 'platform.', 'locale.', 'secrets.',
-                          'hashlib.', 'base64.', 'struct.', 'zlib.', 'datetime.', 'time.')
+                          'hashlib.', 'base64.', 'struct.', 'zlib.', 'datetime.')
 FORBIDDEN_BUILTINS = {'open', 'eval', 'exec', 'compile', '__import__', 'input', 'print', 'breakpoint', 'help', 'exit', 'quit',
                       'globals', 'locals', 'vars', 'getattr', 'setattr', 'delattr', 'dir', 'type', 'memoryview', 'object', 'super'}
 
